@@ -74,6 +74,11 @@ type Store struct {
 	OnCommit func(evs []Event)
 	// OnRequest is called before each request is applied (store locked): label, write.
 	OnRequest func(label string, write bool)
+	// LeaseHook, if set, is consulted for every lease Grant / KeepAliveOnce before it
+	// is applied (store not locked): it returns the fault to inject (FaultNone for the
+	// store's own choice) and optionally a function that runs after the request was
+	// applied and before the reply is returned (it may block: a delayed reply).
+	LeaseHook func(label string, id int64) (fault int, hold func())
 	watchers  []*watcher
 	Requests  int
 	UseVClock bool
@@ -167,6 +172,14 @@ func (s *Store) DeleteDirect(key string) {
 		s.delLocked(key, s.rev, &evs)
 		s.commitLocked(evs)
 	}
+}
+
+// Tick lets every lease whose deadline has passed on the store's clock expire now
+// (the etcd server does this by itself; the fake does it at the next request or Tick).
+func (s *Store) Tick() {
+	s.mu.Lock()
+	defer s.mu.Unlock()
+	s.expireLocked()
 }
 
 // RevokeLeaseDirect revokes a lease as the etcd server would on expiry.
@@ -674,8 +687,21 @@ type leaseClient struct{ s *Store }
 
 func (c *leaseClient) Grant(ctx context.Context, ttl int64) (*clientv3.LeaseGrantResponse, error) {
 	s := c.s
+	hf, hold := s.leaseHook("LeaseGrant", 0)
+	r, err := c.grant(ctx, ttl, hf)
+	if hold != nil {
+		hold()
+	}
+	return r, err
+}
+
+func (c *leaseClient) grant(ctx context.Context, ttl int64, hf int) (*clientv3.LeaseGrantResponse, error) {
+	s := c.s
 	f := s.begin("LeaseGrant", true)
 	defer s.mu.Unlock()
+	if hf != FaultNone {
+		f = hf
+	}
 	if f == FaultRefused {
 		return nil, ErrInjected
 	}
@@ -689,6 +715,14 @@ func (c *leaseClient) Grant(ctx context.Context, ttl int64) (*clientv3.LeaseGran
 		return nil, ErrInjected
 	}
 	return &clientv3.LeaseGrantResponse{ResponseHeader: s.header(), ID: clientv3.LeaseID(id), TTL: ttl}, nil
+}
+
+// leaseHook consults LeaseHook (outside the store lock).
+func (s *Store) leaseHook(label string, id int64) (int, func()) {
+	if s.LeaseHook == nil {
+		return FaultNone, nil
+	}
+	return s.LeaseHook(label, id)
 }
 
 func (c *leaseClient) Revoke(ctx context.Context, id clientv3.LeaseID) (*clientv3.LeaseRevokeResponse, error) {
@@ -730,9 +764,21 @@ func (c *leaseClient) KeepAlive(ctx context.Context, id clientv3.LeaseID) (<-cha
 }
 
 func (c *leaseClient) KeepAliveOnce(ctx context.Context, id clientv3.LeaseID) (*clientv3.LeaseKeepAliveResponse, error) {
+	hf, hold := c.s.leaseHook("LeaseKeepAlive", int64(id))
+	r, err := c.keepAliveOnce(ctx, id, hf)
+	if hold != nil {
+		hold()
+	}
+	return r, err
+}
+
+func (c *leaseClient) keepAliveOnce(ctx context.Context, id clientv3.LeaseID, hf int) (*clientv3.LeaseKeepAliveResponse, error) {
 	s := c.s
 	f := s.begin("LeaseKeepAlive", true)
 	defer s.mu.Unlock()
+	if hf != FaultNone {
+		f = hf
+	}
 	if f == FaultRefused {
 		return nil, ErrInjected
 	}
